@@ -8,6 +8,13 @@ CONSTANTS
   Versions = {"phase0", "altair", "bellatrix", "capella", "deneb"}
   Blindable = {"bellatrix", "capella", "deneb"}
   Outcomes = {"full", "err", "bad400", "nilresp", "never"}
+  Dslots <- AllDslots
   MaxCalls = 2
-INVARIANTS TypeOK OnlyDutySigner SignedIsSelected SubmittedIntact NothingWithoutUnblind DegradesNotSkips
-CHECK_DEADLOCK FALSE
+  NDuties = 2
+  SlotGaps = {1}
+  LaterAllChoices = {{}, {1}}
+  LaterVersions = {"altair", "deneb"}
+  LaterOutcomes = {"full", "err", "never"}
+  LaterDslots = {0, 1}
+INVARIANTS TypeOK OnlyDutySigner SignedIsSelected SubmittedIntact NothingWithoutUnblind DegradesNotSkips CompletesDuty HistoryIndependent
+CHECK_DEADLOCK TRUE
